@@ -144,14 +144,47 @@ Proof.
   apply insert_by_sorted. exact IH.
 Qed.
 
-(* the lines of a box come out ordered by decreasing top (horizontal) / decreasing right edge (vertical),
-   and are the box's lines, each once *)
+(* sortedness for a total comparison: adjacent elements are in order *)
+Fixpoint sorted_le {A} (le : A -> A -> bool) (l : list A) : Prop :=
+  match l with
+  | [] => True
+  | x :: r => match r with [] => True | y :: _ => le x y = true end /\ sorted_le le r
+  end.
+Lemma insert_le_sorted {A} (le : A -> A -> bool) x l : (forall a b, le a b = false -> le b a = true) ->
+  sorted_le le l -> sorted_le le (insert_le le x l).
+Proof.
+  intros Htot. induction l as [|y r IH]; intros H; [cbn; auto|].
+  cbn [insert_le]. destruct (le x y) eqn:E.
+  - cbn [sorted_le]. split; [exact E|exact H].
+  - destruct H as [Hh Ht]. specialize (IH Ht). cbn [sorted_le]. split; [|exact IH].
+    destruct r as [|z r']; cbn [insert_le]; [apply Htot; exact E|].
+    destruct (le x z); [apply Htot; exact E|exact Hh].
+Qed.
+Theorem sort_le_sorted {A} (le : A -> A -> bool) l : (forall a b, le a b = false -> le b a = true) ->
+  sorted_le le (sort_le le l).
+Proof.
+  intros Htot. induction l as [|x r IH]; [exact I|]. unfold sort_le. cbn [fold_right]. fold (sort_le le r).
+  apply insert_le_sorted; assumption.
+Qed.
+
+Lemma pair_le_total a b : pair_le a b = false -> pair_le b a = true.
+Proof.
+  unfold pair_le. destruct (Qeq_bool (fst a) (fst b)) eqn:E.
+  - assert (E' : Qeq_bool (fst b) (fst a) = true) by (apply Qeq_bool_iff; symmetry; apply Qeq_bool_iff; exact E).
+    rewrite E'. intros H. apply Qle_bool_iff. apply Qleb_gt in H. apply Qlt_le_weak. exact H.
+  - assert (E' : Qeq_bool (fst b) (fst a) = false).
+    { destruct (Qeq_bool (fst b) (fst a)) eqn:E2; [|reflexivity]. apply Qeq_bool_iff in E2. symmetry in E2. apply Qeq_bool_iff in E2. congruence. }
+    rewrite E'. intros H. apply Qle_bool_iff. apply Qleb_gt in H. apply Qlt_le_weak. exact H.
+Qed.
+
+(* the lines of a box come out ordered by decreasing top, then left to right (horizontal) / by decreasing right edge,
+   then top to bottom (vertical), and are the box's lines, each once *)
 Theorem box_lines_ordered lines b :
   Permutation (box_lines_sorted lines b) (blines b) /\
-  sorted_by (fun m => match nth_error lines m with
-                      | Some l => match bori b with OH => - by1 (the_box (lbox l)) | OV => - bx1 (the_box (lbox l)) end
-                      | None => 0 end) (box_lines_sorted lines b).
-Proof. split; [apply sort_by_perm|apply sort_by_sorted]. Qed.
+  sorted_le (fun m1 m2 => pair_le (line_key lines b m1) (line_key lines b m2)) (box_lines_sorted lines b).
+Proof.
+  split; [apply sort_le_perm|apply sort_le_sorted]. intros m1 m2. apply pair_le_total.
+Qed.
 
 (* ---------- numbering ---------------------------------------------------------------------------------------- *)
 Lemma combine_seq_map {A B} (f : nat -> A -> B) (l : list A) : forall s,
